@@ -133,8 +133,12 @@ def Store.get (s : Store) (k : Key) : Option Checkpoint :=
   | [] => none
   | (k', c) :: r => if k' = k then some c else Store.get r k
 
-def Store.put (s : Store) (k : Key) (c : Checkpoint) : Store :=
-  (k, c) :: s.filter (fun e => e.1 ≠ k)
+def Store.erase (s : Store) (k : Key) : Store :=
+  match s with
+  | [] => []
+  | (k', c) :: r => if k' = k then Store.erase r k else (k', c) :: Store.erase r k
+
+def Store.put (s : Store) (k : Key) (c : Checkpoint) : Store := (k, c) :: s.erase k
 
 def Store.keys (s : Store) : List Key := s.map (·.1)
 
